@@ -298,20 +298,21 @@ def st_range(lo=-6, hi=6, steps=(1, 1, 2, 3)):
 
 
 @st.composite
-def st_pred(draw, cols, depth=2, edepth=1, literals=True, ranges=st_range(), max_arity=3):
+def st_pred(draw, cols, depth=2, edepth=1, literals=True, ranges=st_range(), max_arity=3, plit=10):
     r = draw(st.integers(0, 99))
     if depth > 0 and r >= 45:
         if r < 60:
-            return ("not", draw(st_pred(cols, depth - 1, edepth, literals, ranges, max_arity)))
+            return ("not", draw(st_pred(cols, depth - 1, edepth, literals, ranges, max_arity, plit)))
         n = draw(st.integers(0, max_arity))
-        subs = tuple(draw(st_pred(cols, depth - 1, edepth, literals, ranges, max_arity)) for _ in range(n))
+        subs = tuple(draw(st_pred(cols, depth - 1, edepth, literals, ranges, max_arity, plit)) for _ in range(n))
         return ("and" if r < 82 else "or", subs)
     e = st_expr(cols, edepth)
     r = draw(st.integers(0, 99))
+    if literals and r >= 100 - plit:
+        return ("plit", draw(st.booleans()))
+    r = draw(st.integers(0, 89))
     if r < 55:
         return (draw(st.sampled_from(sorted(CMP))), draw(e), draw(e))
     if r < 72:
         return ("inrange", draw(e), draw(ranges))
-    if r < 90 or not literals:
-        return ("inseq", draw(e), tuple(draw(st.lists(e, min_size=1, max_size=3))))
-    return ("plit", draw(st.booleans()))
+    return ("inseq", draw(e), tuple(draw(st.lists(e, min_size=1, max_size=3))))
